@@ -39,6 +39,7 @@ LONG_TIMEOUT = 10000
 class Graph:
     def __init__(self, path):
         self.sid, self.edges, self.out = {}, [], collections.defaultdict(list)
+        self.init, self.idle = None, set()
         with open(path) as f:
             for line in f:
                 line = line.strip()
@@ -48,12 +49,13 @@ class Graph:
                 if isinstance(e, str):
                     e = json.loads(e)
                 a, b = self._id(e["from"]), self._id(e["to"])
+                if self.init is None:       # TLC ran with one worker: the first edge leaves the initial state
+                    self.init = a
+                    self.idle.add(a)
                 self.out[a].append(len(self.edges))
                 self.edges.append((a, b, e["act"]))
-                if len(self.edges) == 1:
-                    self.init = a
-        # quiescent states: every sharer between sections
-        self.idle = {self.init} | {b for (a, b, act), e in zip(self.edges, self._idle_flags(path)) if e}
+                if e["idle"]:               # quiescent: every sharer between sections
+                    self.idle.add(b)
         # states from which a quiescent state can be reached (long-timeout graphs contain deadlocks)
         rev = collections.defaultdict(list)
         for a, b, _ in self.edges:
@@ -66,17 +68,6 @@ class Graph:
                     self.live.add(p)
                     todo.append(p)
         self.usable = [k for k, (a, b, _) in enumerate(self.edges) if a in self.live and b in self.live]
-
-    @staticmethod
-    def _idle_flags(path):
-        with open(path) as f:
-            for line in f:
-                line = line.strip()
-                if line:
-                    e = json.loads(line)
-                    if isinstance(e, str):
-                        e = json.loads(e)
-                    yield e["idle"]
 
     def _id(self, s):
         if s not in self.sid:
